@@ -72,6 +72,9 @@ def run(ck):
         for g in groups:
             modes = ["dask"] if len(g["s"]["comp"]) > 1 else ([None, "dask"] if rng.random() < dask_share else [None])
             runs = [(mode, None, None) for mode in modes]
+            if rng.random() < 0.3:
+                # the same scenario in much smaller units (the stopping rule and the criterion are relative)
+                runs.append((modes[0], km.Transform(scale=1e-4), None))
             if rng.random() < int_share:
                 # the same scenario scaled by 50 and stored as 8-bit integers (per-cluster sums exceed 255)
                 runs.append((modes[-1] if rng.random() < 0.5 else modes[0], km.Transform(scale=50.0), "uint8"))
